@@ -201,6 +201,7 @@ def facFromIter (src : Src) : Src × Option Gen :=
   match src.consumeU with
   | (s1, .err _) => (s1, none)
   | (s1, .ok iter) =>
+    if iter = 4294967295 then (s1, none) else     -- count + 1 must fit 32 bits (fix in /repo)
     match s1.consumeD with
     | (s2, .err _) =>
       -- only the count: base 10, factor = base
